@@ -210,6 +210,37 @@ def gen_staggered(D, G):
     return root, outc
 
 
+def gen_backlog(D, G):
+    """A definition that pauses itself with work left behind the `pause`
+    command (the command backlog), next to an asynchronous task that is
+    still running when the stop arrives and answers afterwards."""
+    def T(**kw):
+        t = G.new_task()
+        t['form'] = {'action': 'noop', 'adv': D.bool(0.3)}
+        t.update(kw)
+        return t
+    k = D.int(1, 2)
+    later = ['b%d' % i for i in range(k)]
+    tasks = {'p': T(), 'slow': T(action='std.async_noop')}
+    order = ['p', 'slow'] + later + ['after']
+    clause = D.choice(['on-success', 'on-complete'])
+    lst = [{'to': 'pause', 'guard': None}] + [
+        {'to': b, 'guard': None} for b in later]
+    if D.bool(0.3):
+        lst.insert(0, {'to': 'noop', 'guard': None})
+    tasks['p'][clause] = lst
+    for b in later:
+        tasks[b] = T()
+    tasks['after'] = T()
+    tasks['slow']['on-success'] = [{'to': 'after', 'guard': None}]
+    prog = {'name': 'wf', 'type': 'direct', 'input': {}, 'defaults': None,
+            'output': None, 'lang': 'yaql', 'order': order, 'tasks': tasks,
+            'backlog_shape': True}
+    outc = {n: [['ok', 'a']] for n in order}
+    outc['slow'] = [['never']]
+    return prog, outc
+
+
 def strategy(max_tasks=6):
     from hypothesis import strategies as st
     from mv.gen import workflows as G
@@ -219,8 +250,23 @@ def strategy(max_tasks=6):
     @st.composite
     def strat(draw):
         D = HDraw(draw)
+        # (the `pause` command leaves the commands behind it in a backlog:
+        # a stop must also keep those from being dispatched later)
         F = G.feats(with_items=True, async_actions=True, cycles=False,
-                    expr_failures=False)
+                    expr_failures=False, pause_cmd=D.bool(0.35))
+        if D.bool(0.12):
+            prog, outc = gen_backlog(D, G)
+            # stop (mostly cancel) once the definition paused itself, then
+            # the answer of the asynchronous action, then whatever remains
+            plan = [{'at': D.int(6, 30), 'cmd': 'stop', 'sel': 0,
+                     'state': D.choice(['CANCELLED', 'CANCELLED', 'SUCCESS',
+                                        'ERROR']),
+                     'msg': D.choice([None, 'stop-msg'])},
+                    {'at': D.int(31, 60), 'sel': 0, 'cmd': 'async_result',
+                     'ok': D.bool(0.7)}]
+            return {'prog': prog, 'outcomes': outc, 'input': {},
+                    'sched': enginerun.gen_schedule(D, max_devs=3),
+                    'salt': D.int(0, 20), 'plan': plan}
         if D.bool(0.25):
             prog, outc = gen_staggered(D, G)
         elif D.bool(0.6):
